@@ -109,11 +109,13 @@ type Conn struct {
 	// Outbox: datagrams sent by this end, when ManualDatagrams is set on this end they are not delivered
 	// automatically; the harness moves them with Deliver.
 	ManualDatagrams bool
-	Outbox          [][]byte
-	SentDatagrams   int
-	SentBytes       int
-	accepted        bool
-	opened          bool
+	// FailSendIn > 0: the FailSendIn-th SendDatagram from now fails once (guarded by dmu; set it between sends)
+	FailSendIn    int
+	Outbox        [][]byte
+	SentDatagrams int
+	SentBytes     int
+	accepted      bool
+	opened        bool
 }
 
 // Pair returns two connected ends. readMax (may be nil) limits the size of every stream read.
@@ -192,6 +194,13 @@ func (c *Conn) SendDatagram(p []byte) error {
 	}
 	cp := append([]byte(nil), p...)
 	c.dmu.Lock()
+	if c.FailSendIn > 0 {
+		c.FailSendIn--
+		if c.FailSendIn == 0 {
+			c.dmu.Unlock()
+			return errors.New("fakequic: injected SendDatagram failure")
+		}
+	}
 	c.SentDatagrams++
 	c.SentBytes += len(p)
 	if c.ManualDatagrams {
